@@ -6,7 +6,9 @@ using namespace vf;
 namespace {
 
 int g_initcnt[512];
-CO_ERR cnt_init(struct CO_OBJ_T *o, struct CO_NODE_T *n) { (void)n; g_initcnt[o->Data & 511]++; return CO_ERR_NONE; }
+// some entries refuse their initialisation (a function of the key, not drawn from the tape): every entry is still initialised exactly once
+bool init_refuses(uint32_t key) { return ((CO_GET_DEV(key) * 2654435761u) >> 20) % 9 == 0; }
+CO_ERR cnt_init(struct CO_OBJ_T *o, struct CO_NODE_T *n) { (void)n; g_initcnt[o->Data & 511]++; return init_refuses(o->Key) ? CO_ERR_TYPE_INIT : CO_ERR_NONE; }
 uint32_t cnt_size(struct CO_OBJ_T *o, struct CO_NODE_T *n, uint32_t w) { (void)o; (void)n; (void)w; return 1; }
 const CO_OBJ_TYPE CntType = {cnt_size, cnt_init, 0, 0, 0};
 
@@ -26,7 +28,10 @@ struct Dict {
   void init_walk(Sim &s) {
     memset(g_initcnt, 0, sizeof g_initcnt);
     edge_reset();
-    CODictObjInit(cod, s.node);
+    CO_ERR r = CODictObjInit(cod, s.node);
+    bool any = false; for (int i = 0; i < n; i++) if (init_refuses(arr[i].Key)) any = true;
+    if (any) s.c.cls("dictionary-with-refused-initialisation");
+    CHECK(s.c, (r != CO_ERR_NONE) == any, "init-exactly-once", "CODictObjInit returned %d for a dictionary of %d entries of which %s refuses its initialisation", (int)r, n, any ? "at least one" : "none");
     for (int i = 0; i < n; i++)
       CHECK(s.c, g_initcnt[i] == 1, "init-exactly-once", "type initialisation of entry %d of %d (%04X:%02X) ran %d times", i, n, CO_GET_IDX(arr[i].Key), CO_GET_SUB(arr[i].Key), g_initcnt[i]);
   }
